@@ -70,6 +70,10 @@ let handle (toks : string list) : string =
   | ["shapeacct"; gens; ms] ->
       let (a, b) = shape_acct_strs (List.map pstr_of_string (split ',' gens)) (morphl_of ms) in
       Printf.sprintf "shape=%s acct=%s" (bool_str a) (bool_str b)
+  | ["member"; n; gens; xs] ->
+      let a = member_strs (nat_of_int (int_of_string n)) (List.map pstr_of_string (split ',' gens)) (List.map pstr_of_string (split ',' xs)) in
+      Printf.sprintf "in=%s eq=%s sel=%s" (bool_str a.m_in) (bool_str a.m_eq) (String.concat "," (List.map string_of_pstr a.m_sel))
+  | ["space"; n; gens] -> strs (space_strs (nat_of_int (int_of_string n)) (List.map pstr_of_string (split ',' gens)))
   | _ -> "ERR unknown request"
 
 let () =
